@@ -119,6 +119,7 @@ def gen_device(rng: random.Random, xy=False, focus=None):
 # this module keep string ids and list-valued targets)
 INT_IDS_RATE = 0.0
 SCALAR_TARGET_RATE = 0.0
+SHORTHAND_RATE = 0.0
 
 
 def gen_register(rng: random.Random):
@@ -185,7 +186,10 @@ def gen_pulse(rng: random.Random, ch, big=False):
     det = gen_wf(rng, d, False)
     if big and amp["k"] == "const":
         amp["v"] = rng.choice([8.0, 8.5, 100.0, 101.0])
-    return dict(amp=amp, det=det, phase=rng.choice(PHASES), post=rng.choice([0.0, 0.0, 0.0, 0.5, -1.0, 7.0]))
+    p = dict(amp=amp, det=det, phase=rng.choice(PHASES), post=rng.choice([0.0, 0.0, 0.0, 0.5, -1.0, 7.0]))
+    if SHORTHAND_RATE and rng.random() < SHORTHAND_RATE:
+        p["via"] = True  # build it with Pulse.ConstantPulse / ConstantAmplitude / ConstantDetuning when its shape allows
+    return p
 
 
 class Live:
